@@ -388,6 +388,18 @@ func main() {
 		}
 	}
 	res.Extra["witness_scenarios_all_schedules"] = exhaustiveCount
+	// a Delete invalidated five times in a row gives up with Unavailable
+	{
+		inc := Op{K: "u", ID: 0, F: "a1"}
+		sc := Scenario{Init: map[string]int64{"0": 0}, Progs: [][]Op{{{K: "d", ID: 0}}, {inc, inc, inc, inc, inc}}}
+		sched := []int{0}
+		for i := 0; i < 5; i++ {
+			sched = append(sched, 1, 1, 1, 0)
+		}
+		record(sc, runScheduled(ctl, sc, sched, nil))
+		sc4 := Scenario{Init: map[string]int64{"0": 0}, Progs: [][]Op{{{K: "d", ID: 0}}, {inc, inc, inc, inc}}}
+		record(sc4, runScheduled(ctl, sc4, sched, nil))
+	}
 	// 2. thorough: every schedule of bigger programs and of random small scenarios
 	if f.Thorough() {
 		n2 := 0
@@ -403,7 +415,7 @@ func main() {
 		res.Extra["thorough_scenarios_all_schedules"] = n2
 	}
 	// 3. random scenarios, random schedules
-	nrand := f.N(400, 6000)
+	nrand := f.N(2500, 30000)
 	for i := 0; i < nrand; i++ {
 		sc := genScenario(rng, 3, 2)
 		r := runScheduled(ctl, sc, nil, func(en []int) int { return en[rng.Intn(len(en))] })
@@ -526,8 +538,8 @@ func stressOnce(sc Scenario) ([]HOp, map[int]int64) {
 func stress(f lib.Flags, res *lib.Result, rng *rand.Rand) {
 	mon := res.Monitor("linearizable-stress",
 		"the property on unhooked executions: writers are real goroutines released together on all cores, calls stamped with an atomic counter at invocation and response; same independent checker; a violation is then searched for among all hooked schedules of the same scenario to obtain a deterministic replay")
-	rounds := f.N(30, 400)
-	reps := f.N(150, 400)
+	rounds := f.N(80, 600)
+	reps := f.N(300, 500)
 	workers := runtime.GOMAXPROCS(0) / 2
 	if workers < 2 {
 		workers = 2
@@ -597,10 +609,16 @@ func stress(f lib.Flags, res *lib.Result, rng *rand.Rand) {
 	if len(founds) > 0 {
 		ctl := k4.New(parkPoints...)
 		defer ctl.Close()
+		searched := map[string]bool{}
 		for _, fd := range founds {
+			if searched[fd.v.sig] {
+				mon.Violate(fd.v.sig, fd.v.what, nil, fd.v.expected, fd.v.observed)
+				continue
+			}
+			searched[fd.v.sig] = true
 			in := map[string]any{"mode": "stress", "init": fd.sc.Init, "progs": fd.sc.Progs}
 			// look for a deterministic schedule showing the same failure
-			exploreAll(ctl, fd.sc, 20000, func(r *Run) {
+			exploreAll(ctl, fd.sc, 4000, func(r *Run) {
 				if _, has := in["sched"]; has {
 					return
 				}
